@@ -14,6 +14,35 @@ pub mod sandbox;
 pub mod world;
 
 use engine::Ctx;
+
+/// 3.8 Poisoning allocator (asan flavour): every fresh allocation and every grown tail is filled
+/// with 0xCD, a byte the payload generators avoid.
+#[cfg(feature = "asan")]
+mod poison {
+    use std::alloc::{GlobalAlloc, Layout, System};
+    pub struct Poison;
+    unsafe impl GlobalAlloc for Poison {
+        unsafe fn alloc(&self, l: Layout) -> *mut u8 {
+            let p = System.alloc(l);
+            if !p.is_null() {
+                std::ptr::write_bytes(p, 0xCD, l.size());
+            }
+            p
+        }
+        unsafe fn dealloc(&self, p: *mut u8, l: Layout) {
+            System.dealloc(p, l)
+        }
+        unsafe fn realloc(&self, p: *mut u8, l: Layout, new: usize) -> *mut u8 {
+            let q = System.realloc(p, l, new);
+            if !q.is_null() && new > l.size() {
+                std::ptr::write_bytes(q.add(l.size()), 0xCD, new - l.size());
+            }
+            q
+        }
+    }
+    #[global_allocator]
+    static GLOBAL: Poison = Poison;
+}
 use std::collections::BTreeMap;
 use std::sync::atomic::Ordering::SeqCst;
 
